@@ -90,6 +90,11 @@ fn build<'tcx>(tcx: TyCtxt<'tcx>) -> J {
         match kind {
             DefKind::Fn | DefKind::AssocFn | DefKind::Closure => {
                 bodies.push(cx.body(did));
+                // promoted constants of this body (e.g. `&MatchKind::Standard` in `self == Self::Standard`)
+                let proms = tcx.promoted_mir(did.to_def_id());
+                for (pi, pb) in proms.iter_enumerated() {
+                    bodies.push(cx.promoted_body(did, pi.as_u32(), pb));
+                }
             }
             _ => {}
         }
@@ -616,6 +621,57 @@ impl<'tcx> Cx<'tcx> {
             .fi("arg_count", body.arg_count as i128)
             .f("locals", J::Arr(locals))
             .f("debug", J::Arr(dbg))
+            .f("blocks", J::Arr(blocks))
+            .fs("span", self.span(tcx.def_span(d)))
+            .done()
+    }
+
+    fn promoted_body(&self, did: LocalDefId, idx: u32, body: &Body<'tcx>) -> J {
+        let tcx = self.tcx;
+        let d = did.to_def_id();
+        let env = TypingEnv::post_analysis(tcx, d);
+        let mut locals = Vec::new();
+        for (_l, decl) in body.local_decls.iter_enumerated() {
+            locals.push(J::obj().fs("ty", self.ty_s(decl.ty)).f("tyj", self.tyj(decl.ty, 0)).done());
+        }
+        let mut blocks = Vec::new();
+        for (_bb, data) in body.basic_blocks.iter_enumerated() {
+            let mut stmts = Vec::new();
+            for st in &data.statements {
+                if let StatementKind::Assign(b) = &st.kind {
+                    let (place, rv) = &**b;
+                    stmts.push(
+                        J::obj()
+                            .fs("k", "assign")
+                            .f("lhs", self.place(body, place))
+                            .f("rv", self.rvalue(body, env, rv))
+                            .fs("span", self.span(st.source_info.span))
+                            .fb("exp", st.source_info.span.from_expansion())
+                            .done(),
+                    );
+                }
+            }
+            let term = data.terminator();
+            let tj = self
+                .terminator(body, env, &term.kind)
+                .fs("span", self.span(term.source_info.span))
+                .fb("exp", term.source_info.span.from_expansion())
+                .done();
+            blocks.push(J::obj().fb("cleanup", data.is_cleanup).f("stmts", J::Arr(stmts)).f("term", tj).done());
+        }
+        J::obj()
+            .fs("path", format!("{}::promoted[{}]", self.path(d), idx))
+            .fs("name", format!("promoted[{}]", idx))
+            .fs("kind", "Promoted")
+            .f("closure_parent", J::s(self.path(d)))
+            .fb("unsafe", false)
+            .fs("vis", "promoted")
+            .f("impl_self_ty", J::Null)
+            .f("impl_trait", J::Null)
+            .f("impl_adt", J::Null)
+            .fi("arg_count", 0)
+            .f("locals", J::Arr(locals))
+            .f("debug", J::Arr(Vec::new()))
             .f("blocks", J::Arr(blocks))
             .fs("span", self.span(tcx.def_span(d)))
             .done()
